@@ -17,7 +17,11 @@
       and at most once per initiate from `c`, runs at most one process and only with the params of a start message
       from `c`, aborts only on a fail / malformed start from `c`; `forged_messages_change_nothing`: deleting every
       message whose sender is not `c` leaves the whole behaviour unchanged (non-interference).
-  Not modelled here: timers (coordinator time-out, TSS time-out — C11), the p2p layer's sender authentication
+   4. `ticks_change_nothing` / `announced_subset_ok_with_ticks`: re-broadcast ticks of the InitiatePeriod ticker between
+      the ready messages change nothing. `retry_follower_obeys_only`: in a retried attempt (waitForStart knows the
+      bully-elected coordinator, handleError's fail watcher knows none) the relayer obeys only that coordinator and no
+      fail message from anyone aborts it.
+  Not modelled here: timers other than the re-broadcast tick (coordinator time-out, TSS time-out — C11), the p2p layer's sender authentication
   (`From` is the noise-authenticated remote peer: trusted, DESIGN 7), peer-id base58 rendering.
 -/
 import SygmaModel.Model.C07
@@ -328,6 +332,52 @@ theorem stepWait_forged (c : α) (s : WSt α) (e : Ev α) (h : e.src ≠ c) : st
   | start f p => have : ¬ f = c := h; split <;> simp [accepts, this]
   | fail f => have : ¬ f = c := h; split <;> simp [failFrom, this]
 
+
+theorem initiateT_snd (key : α → Nat) (cfg : ICfg α) (evs : List (Arr α)) :
+    ∀ (rs : List α) (n m : Nat), (initiateTFrom key cfg rs evs n).map Prod.snd =
+      (initiateFrom key cfg rs (readiesOf evs) m).map Prod.snd := by
+  induction evs with
+  | nil => intro rs n m; simp [initiateTFrom, initiateFrom, readiesOf]
+  | cons e es ih =>
+    intro rs n m
+    cases e with
+    | tick => simp only [initiateTFrom, readiesOf]; exact ih rs (n + 1) m
+    | ready p =>
+      simp only [initiateTFrom, readiesOf, initiateFrom]
+      split
+      · simp
+      · exact ih _ (n + 1) (m + 1)
+
+/-- fail messages are the only events on which the two-sender step differs from the one-sender step -/
+def notFail : Ev α → Bool
+  | .fail _ => false
+  | _ => true
+
+theorem stepWait2_same (c : Option α) (s : WSt α) (e : Ev α) : stepWait2 c c s e = stepWait c s e := by
+  cases e with
+  | fail f => unfold stepWait2 stepWait; cases s.phase <;> rfl
+  | init f => rfl
+  | start f p => rfl
+
+theorem stepWait2_nowatch (cw : Option α) (s : WSt α) (e : Ev α) :
+    stepWait2 cw none s e = if notFail e then stepWait cw s e else s := by
+  cases e with
+  | fail f => simp only [stepWait2, failFrom, notFail]; cases s.phase <;> simp
+  | init f => rfl
+  | start f p => rfl
+
+theorem runWait2_nowatch (cw : Option α) (tr : List (Ev α)) :
+    runWait2 cw none tr = runWait cw (tr.filter notFail) := by
+  unfold runWait2 runWait
+  generalize (initW : WSt α) = s
+  induction tr generalizing s with
+  | nil => rfl
+  | cons e es ih =>
+    simp only [List.foldl_cons, List.filter_cons, stepWait2_nowatch]
+    cases h : notFail e
+    · simpa using ih s
+    · simpa using ih _
+
 end Helpers
 
 section Property
@@ -409,6 +459,30 @@ theorem threshold_zero_point :
     initiate (fun n : Nat => n) ⟨0, [0, 1, 2], 0, []⟩ [1, 2] = none ∧
     initiate (fun n : Nat => n) ⟨0, [0, 1, 2], 0, []⟩ [7] = some (1, [0]) := by decide
 
+
+/-- **C07-2 with the re-broadcast ticker.** Ticks of the `InitiatePeriod` ticker, anywhere between the ready messages,
+    change nothing: the announced subset is the one announced for the ready messages alone … -/
+theorem ticks_change_nothing (key : α → Nat) (cfg : ICfg α) (evs : List (Arr α)) :
+    (initiateT key cfg evs).map Prod.snd = (initiate key cfg (readiesOf evs)).map Prod.snd :=
+  initiateT_snd key cfg evs [cfg.self] 0 0
+
+/-- … and therefore satisfies the C07 clause — in particular it still contains the coordinator, however many times the
+    initiate message was re-broadcast before the quorum was reached. -/
+theorem announced_subset_ok_with_ticks (key : α → Nat) (cfg : ICfg α) (hself : cfg.self ∈ cfg.holders)
+    (hex : cfg.self ∉ cfg.excluded) (evs : List (Arr α)) (n : Nat) (S : List α)
+    (h : initiateT key cfg evs = some (n, S)) : SubsetOk cfg (readiesOf evs) S := by
+  have h1 := ticks_change_nothing key cfg evs
+  rw [h] at h1
+  cases hi : initiate key cfg (readiesOf evs) with
+  | none => rw [hi] at h1; simp at h1
+  | some r =>
+    obtain ⟨m, S'⟩ := r
+    rw [hi] at h1; simp at h1; subst h1
+    exact announced_subset_ok key cfg hself hex (readiesOf evs) m S hi
+
+example : initiateT (fun n : Nat => n) ⟨0, [0, 1, 2, 3], 2, []⟩ [.ready 1, .tick, .tick, .ready 3, .ready 2] = some (4, [3, 1, 0]) := by
+  decide
+
 /-- excluded point: a coordinator that is itself on the excluded list still puts itself into the subset -/
 theorem self_excluded_point :
     initiate (fun n : Nat => n) ⟨0, [0, 1, 2], 1, [0]⟩ [1] = some (1, [1, 0]) := by decide
@@ -467,6 +541,38 @@ theorem genuine_messages_obeyed (c : α) (n : Nat) :
     (runWait (some c) [Ev.init c]).readies = [c] ∧ (runWait (some c) [Ev.start c (some n)]).runs = [n] ∧
     (runWait (some c) [Ev.fail c]).res = .fail ∧ (runWait (some c) [Ev.start c (some n), Ev.fail c]).res = .fail := by
   simp [runWait, stepWait, initW, accepts, failFrom, WSt.res]
+
+
+/-- the two-sender machine with both senders equal is the one-sender machine (first attempt) -/
+theorem runWait2_same (c : Option α) (tr : List (Ev α)) : runWait2 c c tr = runWait c tr := by
+  unfold runWait2 runWait
+  congr 1
+  funext s e
+  exact stepWait2_same c s e
+
+/-- **C07-3 in a retried attempt.** The relayer follows the bully-elected coordinator `r` (known to waitForStart) while
+    the fail watcher started by handleError knows no coordinator: for every trace it still answers and starts only on
+    `r`'s messages, and NO fail message — from `r`, from a committee member, from anyone — aborts the attempt. -/
+theorem retry_follower_obeys_only (r : α) (tr : List (Ev α)) :
+    ObeysOnly r tr (runWait2 (some r) none tr).readies (runWait2 (some r) none tr).runs (runWait2 (some r) none tr).res ∧
+    (runWait2 (some r) none tr).res ≠ .fail := by
+  rw [runWait2_nowatch]
+  have h := obeys_only_coordinator r (tr.filter notFail)
+  obtain ⟨h1, h2, h3, h4, h5, h6⟩ := h
+  have hnf : (runWait (some r) (tr.filter notFail)).res ≠ .fail := by
+    intro hf
+    have := h5 hf
+    simp [notFail] at this
+  refine ⟨⟨h1, ?_, ?_, h4, ?_, ?_⟩, hnf⟩
+  · refine Nat.le_trans h2 ?_
+    exact (List.Sublist.filter _ List.filter_sublist).length_le
+  · intro n hn; exact (List.mem_filter.1 (h3 n hn)).1
+  · intro hf; exact absurd hf hnf
+  · intro hb; exact (List.mem_filter.1 (h6 hb)).1
+
+example : (runWait2 (some 2) none [Ev.init 2, Ev.fail 0, Ev.fail 2, Ev.start 2 (some 7), Ev.fail 1, Ev.fail 2]).runs = [7] ∧
+    (runWait2 (some 2) none [Ev.init 2, Ev.fail 0, Ev.fail 2, Ev.start 2 (some 7), Ev.fail 1, Ev.fail 2]).res = .ok := by
+  decide
 
 end Property
 end Sygma.C07
